@@ -135,6 +135,12 @@ def _explore(out, tier, seed, facts, replay):
                     vals = [(cube[a][i][s] if dsc["axis"] == "leadtime" else cube[i][b][s]) for i in idx]
                     if dsc["agg"] == "count":
                         want.append(float(sum(1 for v in vals if v is not None)))
+                    elif dsc["agg"] in ("change", "abschange"):
+                        # last minus first value of the window: missing values in between do not matter
+                        if not vals or vals[0] is None or vals[-1] is None:
+                            want.append(NAN)
+                        else:
+                            want.append(vals[-1] - vals[0] if dsc["agg"] == "change" else abs(vals[-1] - vals[0]))
                     elif any(v is None for v in vals):
                         want.append(NAN)
                     else:
